@@ -6,7 +6,7 @@ ID = "C06"
 LEVEL = "proof"
 PROPS_FILE = "C06.v"
 RUN_MODULE = "RunC06"
-TRANSLATOR_UNITS = []
+TRANSLATOR_UNITS = ["nir"]
 SHARD = 700
 RULE = ("drivers: all ordered pairs of placements (bit range of a 4-bit signal x module of a 3-node tree (fan / chain) x "
         "domain comb/a/b) with the target form rotating over slice / part-select on the slice / part-select on the whole "
